@@ -129,6 +129,50 @@ def _hp_spec(cfg, i, path):
     return first is want and second is want and can_view is want and can_edit is False
 
 
+# ------------------------------------------------------------------ answers do not depend on which checks were made earlier in the session
+ALLF = ('groups_ok', 'roles_ok', 'labels_ok', 'entity_excluded', 'attr_excluded')
+
+
+def _sq_configs(tier):
+    out = []
+    for fwd in _combos(ALLF, 1):
+        for rk in (0, 1):
+            for rev in _combos(FEATURES, rk):
+                out.append(dict(rules=tuple(tuple(sorted(f.items())) for f in fwd), reverse_rules=tuple(tuple(sorted(f.items())) for f in rev)))
+    return out
+
+
+def _sq_case(cfg, values):
+    M = model()
+    base = _hp_case(dict(target='entity', rules=(), reverse_rules=(), order='fwd'), values)
+
+    def call():
+        A, B = M.A, M.B
+        fwd = [_rule(M, dict(f), A, A.p) for f in cfg['rules']]
+        for r, f in zip(fwd, cfg['rules']):
+            if dict(f).get('attr_excluded'): r.attrs_to_exclude = {A.p, A.b}
+        rev = [_rule(M, dict(f), B, B.a) for f in cfg['reverse_rules']]
+        if fwd: A._access_rules_['view'] = fwd
+        if rev: B._access_rules_['view'] = rev
+        targets = dict(entity=A, attr_plain=A.p, attr_relation=A.b, object=A[1])
+        cache = M.db._get_cache()
+
+        def fresh_session():
+            cache.perm_cache.clear(); cache.user_roles_cache.clear(); cache.obj_labels_cache.clear()
+        alone = {}
+        for n, x in targets.items():
+            fresh_session(); alone[n] = core.has_perm('u', 'view', x)
+        bad = []
+        for n1 in targets:
+            for n2 in targets:
+                if n1 == n2: continue
+                fresh_session()
+                r1 = core.has_perm('u', 'view', targets[n1]); r2 = core.has_perm('u', 'view', targets[n2]); r3 = core.has_perm('u', 'view', targets[n1])
+                if (r1, r2, r3) != (alone[n1], alone[n2], alone[n1]): bad.append((n1, n2, (r1, r2, r3), (alone[n1], alone[n2])))
+        return bad
+    return Case(call, {}, [], base.setup, base.teardown)
+
+
 def _ex_case(cfg, values):
     M = model()
 
@@ -151,6 +195,9 @@ CONTRACTS = [
     Contract('has_perm', ['pony.orm.core:has_perm', 'pony.orm.core:can_view', 'pony.orm.core:can_edit'], _hp_configs, _hp_case,
              [('answer_is_what_the_declared_rules_grant_and_repeatable', _hp_spec)], level='bounded',
              bound='<= 2 (quick) / 3 (thorough) rules on the entity, <= 2 on the reverse entity, all predicate combinations, both rule orders'),
+    Contract('has_perm.sequences', 'pony.orm.core:has_perm', _sq_configs, _sq_case,
+             [('answer_independent_of_earlier_checks_in_the_session', lambda cfg, i, path: path.outcome == 'ret' and path.value == [])], level='bounded',
+             bound='one rule on the entity (all 32 predicate combinations), <= 1 on the reverse entity; every ordered pair of entity / attribute / relationship attribute / object checks'),
     Contract('AccessRule.exclude', 'pony.orm.core:AccessRule.exclude', [dict()], _ex_case,
              [('excludes_entity_with_subclasses_and_attribute_refuses_pk', lambda cfg, i, path: path.outcome == 'ret' and path.value == (True, True))], level='bounded', bound='one rule'),
 ]
